@@ -257,7 +257,7 @@ def cbmc_query(qid, params, ctx):
         return gbs, ""
 
     def run_cbmc(gbs, trace):
-        cmd = ["cbmc"] + gbs + ["--function", params.get("entry", "harness"), "--json-ui",
+        cmd = ["cbmc"] + gbs + ["--function", params.get("entry", "harness"), "--json-ui", "--verbosity", "8",
                                 "--object-bits", str(params.get("object_bits", 12))] + BASE_FLAGS
         if params.get("unwind") is not None:
             cmd += ["--unwind", str(params["unwind"])]
